@@ -222,7 +222,7 @@ def execute(history):
                 except Exception as e:  # noqa
                     msg = str(e)
                     kind = "non_leaf_deepcopy" if ("graph leaves" in msg or "view was created in no_grad mode" in msg) else ("local_object" if "local object" in msg or "Can't pickle" in msg else type(e).__name__)
-                    out.violate("snapshot_failed", i, "%s of the model list raised %s(%s)" % (how, type(e).__name__, msg[:160]), exc_kind=kind, phase="n/a", target="n/a", **cls)
+                    out.violate("snapshot_failed", i, "%s of the model list raised %s(%s)" % (how, type(e).__name__, msg[:160]), exc_kind=kind, model_kind="modellist", defined_in=core.local_object_site(msg) if kind == "local_object" else "n/a", phase="n/a", target="n/a", **cls)
                     sketch.append(tag + "!")
                     continue
                 B = new
